@@ -139,6 +139,17 @@ def modelOp (L : Nat) (ws : List String) : Option String :=
   | ["SERA", t, m, k] => do some (opSERA (← parseTree t) (← m.toNat?) (← k.toNat?))
   | ["ROUND", t] => do some (opROUND (← parseTree t) L)
   | ["SIZES", t] => do some s!"{sizeS (← parseSkel t)}"
+  | ["GROWRUN", kind, n] => do
+      -- n insertions into a fresh indefinite container under a granting allocator: the growth rule of the heap model applied n times
+      let n ← n.toNat?
+      if !(kind == "a" || kind == "m" || kind == "b" || kind == "s") then none else
+      let step := fun (st : Nat × Nat × UInt64) (i : Nat) =>
+        let (cap, reqs, h) := st
+        let (cap, reqs) := if i ≥ cap then ((if cap == 0 then 1 else 2 * cap), reqs + 1) else (cap, reqs)
+        (cap, reqs, (h ^^^ UInt64.ofNat cap) * 1099511628211)
+      let (cap, reqs, h) := (List.range n).foldl step (0, 0, (1469598103934665603 : UInt64))
+      let hex := String.ofList (Nat.toDigits 16 h.toNat)
+      some s!"ok size={n} cap={cap} reqs={reqs} digest={"".pushn '0' (16 - hex.length)}{hex}"
   | ["GROWAT", kind, cap] => do
       -- one more entry into a full indefinite container of capacity `cap`, the allocator refusing: the growth rule of the heap model
       let cap ← cap.toNat?
